@@ -101,6 +101,9 @@ func runStress(c StressCase) *vstat.Violation {
 			}()
 			<-start
 			for r, kind := range c.Kinds[wi] {
+				if viol.Load() != nil {
+					return // somebody has a verdict already: do not spend the budget on the wreckage
+				}
 				got := false
 				switch kind {
 				case KLock:
@@ -114,7 +117,11 @@ func runStress(c StressCase) *vstat.Violation {
 						}
 					}
 				case KLockWithCtx:
-					ctx, cancel := context.WithTimeout(context.Background(), 20*time.Second)
+					patience := 20 * time.Second
+					if c.FailEvery > 0 {
+						patience = 3 * time.Second // attempts fail quickly here; a token that got lost must not cost minutes
+					}
+					ctx, cancel := context.WithTimeout(context.Background(), patience)
 					err := lk.LockWithCtx(ctx)
 					got = err == nil
 					if err != nil && ctx.Err() == nil && !(c.FailEvery > 0 && errors.Is(err, errInjectedCreate)) {
@@ -142,8 +149,11 @@ func runStress(c StressCase) *vstat.Violation {
 	go func() { wg.Wait(); close(done) }()
 	select {
 	case <-done:
-	case <-time.After(120 * time.Second):
-		return vstat.V("stress-stuck", "the free-running workers did not finish within 120 s (acquired %d times)", acquired.Load())
+	case <-time.After(map[bool]time.Duration{false: 120 * time.Second, true: 40 * time.Second}[c.FailEvery > 0]):
+		if v := viol.Load(); v != nil {
+			return v
+		}
+		return vstat.V("stress-stuck", "the free-running workers did not finish within their wall-clock budget (acquired %d times)", acquired.Load())
 	}
 	if v := viol.Load(); v != nil {
 		return v
@@ -226,14 +236,19 @@ func TestC04SharedFail(t *testing.T) {
 		for i := 0; i < nl; i++ {
 			c.Lockers = append(c.Lockers, 0)
 		}
-		nw := rapid.IntRange(3, 12).Draw(rt, "workers")
+		nw := rapid.IntRange(4, 16).Draw(rt, "workers")
+		tryPct := rapid.SampledFrom([]int{0, 0, 10, 25}).Draw(rt, "tryLockPct") // mostly blocking attempts: they queue on the local token
 		for i := 0; i < nw; i++ {
 			c.Workers = append(c.Workers, i%nl)
-			nr := rapid.IntRange(20, 200).Draw(rt, "rounds")
+			nr := rapid.IntRange(100, 600).Draw(rt, "rounds")
 			var ks, ys []int
 			for r := 0; r < nr; r++ {
-				ks = append(ks, rapid.SampledFrom([]int{KLockWithCtx, KLockWithCtx, KLockWithCtx, KTryLock}).Draw(rt, "kind"))
-				ys = append(ys, rapid.IntRange(0, 1).Draw(rt, "yield"))
+				k := KLockWithCtx
+				if (r*7+i*13)%100 < tryPct {
+					k = KTryLock
+				}
+				ks = append(ks, k)
+				ys = append(ys, (r+i)%2)
 			}
 			c.Kinds = append(c.Kinds, ks)
 			c.Yields = append(c.Yields, ys)
